@@ -184,8 +184,7 @@ func checkDesc(s *descSpec, count bool) (*oracleErr, *descDetail, []byte) {
 		for _, m := range ref.Medias {
 			m.IsBackChannel = false
 		}
-		if oe := cmpSession(ref, p, "roundtrip"); oe != nil {
-			oe.Sig = "session/all-back-channels/" + strings.TrimPrefix(oe.Sig, "session/roundtrip/")
+		if oe := cmpSession(ref, p, "all-back-channels"); oe != nil {
 			return fail(oe)
 		}
 		if count {
@@ -362,7 +361,7 @@ func main() {
 	run.MaxVio = 12
 	buildMenus()
 	run.Rule("case = one built description or one parser input. A: full parameter product of each of the 22 format types (menus.go: payload types static/dynamic 96,127, rates {8000,16000,44100,48000}, channels {1,2,6}, every optional field absent/present, configuration blobs empty/minimal/typical), one format in one media. " +
-		"B: all 22x22 ordered type pairs in one media and in two medias, type triples in three medias (quick: 7 types, thorough: all 22), and titles {'', 'x', 'with spaces'} x ids {none,numeric,alphanumeric} x every back-channel subset x FEC groups {none,1,2} x session key-mgmt {none,2 messages} x media security {none,first,all,SAVP only} x multicast x control {trackID=n, empty, absolute} over shapes of 1,2,3 medias. " +
+		"B: all 22x22 ordered type pairs in one media and in two medias, type triples in three medias (quick: 7 types, thorough: all 22), and titles {'', 'x', 'with spaces'} x ids {none,numeric,alphanumeric,partial(judgement)} x every back-channel subset x FEC groups {none,1,2} x session key-mgmt {none,2 messages} x media security {none,first,all,SAVP only} x multicast x control {trackID=n, empty, absolute} over shapes of 1,2,3 medias. " +
 		"C: every document of the sub-menu (default and alternative entry of each type, 6 structured sessions) under every single edit (delete/duplicate/swap lines, replace line, value or token from the hostile menus, drop last character/second half of a token), every pair of edits (quick: without token edits; thorough: all), and every byte-prefix truncation. " +
 		"non-trivial/distinct = distinct SDP document text; outcome = (accepted|rejected error class|judgement result, media/format shape)")
 	run.Assume("parser = client DESCRIBE path: sdpunmarshaler.Unmarshal then description.Session.Unmarshal2; marshaller = description.Session.Marshal()")
@@ -436,7 +435,7 @@ func main() {
 		{{def("h264")}, {def("opus"), def("g711")}},
 		{{def("h265")}, {def("mpeg4audio")}, {def("klv"), def("generic")}},
 	}
-	idStyles := [][]string{nil, {"1", "2", "3"}, {"video0", "a1", "Zz9"}}
+	idStyles := [][]string{nil, {"1", "2", "3"}, {"video0", "a1", "Zz9"}, {"1", "", "3"}}
 	for _, shape := range shapes {
 		n := len(shape)
 		for _, title := range []string{"", "x", "with spaces", " "} {
@@ -444,7 +443,7 @@ func main() {
 				for back := 0; back < 1<<n; back++ {
 					var fecs [][][]string
 					fecs = append(fecs, nil)
-					if ids != nil {
+					if ids != nil && ids[1] != "" {
 						fecs = append(fecs, [][]string{ids[:n]})
 						if n >= 2 {
 							fecs = append(fecs, [][]string{{ids[0], ids[1]}, {ids[n-1]}})
@@ -463,6 +462,9 @@ func main() {
 										}
 										if title == " " {
 											s.Judge = "title of a single space is the SDP encoding of the empty title"
+										}
+										if ids != nil && ids[1] == "" && n >= 2 {
+											s.Judge = "media ids on some medias only (own parser rejects partial ids)"
 										}
 										for k := 0; k < n; k++ {
 											ms := mediaSpec{Renum: true, Formats: shape[k], Back: back&(1<<k) != 0}
